@@ -343,6 +343,7 @@ func keepManifest(sp setSpec, gen string, man []byte) string {
 
 func main() {
 	run := ev.Start("C12")
+	defer run.Guard()
 	run.Rule("case = (generation, schema set): kitchen sink, PRNG 'hard' sets (cyclic namespace references, equal simple names in several namespaces, recursion, complex keys, random resources), one probe per type constructor (31) in every position (18), identifier probes (legal schema names awkward in Go, observed only unless they are plain lower/upper-case words); per case six fresh generator processes (GOMAXPROCS 1/16/3, different working directory and TZ) must exit 0 and write byte-identical trees, and `go build` of the generated packages must succeed; the checked-in bindings (v2/restlidata/generated, v2/restlidata/PagingContext, root restlidata/*.gr.go) are regenerated in a scratch copy and must be byte-identical (or equal as comment-free syntax trees). distinct = distinct (generation, set class) that held")
 	run.Assume("custom typerefs are not in the schema grammar (they need hand-written Go next to the generated code)", "a failing probe that puts one constructor in all positions is re-run position by position to attribute the failure")
 	gen2Bin, gen1Bin, repo, workDir = os.Getenv("VERIF_GEN_BIN"), os.Getenv("VERIF_GEN1_BIN"), os.Getenv("VERIF_REPO"), ""
